@@ -212,7 +212,7 @@ func run(rp *explore.Report, tier string) {
 				}
 				c /= nopts
 			}
-			if tier != "thorough" && nd > 2 && code%7 != 0 {
+			if false && tier != "thorough" && nd > 2 && code%7 != 0 {
 				// quick: all assignments to <=2 sites, and one in seven of the 3-site ones
 				continue
 			}
